@@ -51,6 +51,7 @@ def main(tier, seed):
     profcheck.run_scenarios(rep, "loopexits", loops, bins, PROP)
     profcheck.run_scenarios(rep, "functionends", scenarios.function_ending_scenarios(), bins, PROP)
     profcheck.run_scenarios(rep, "expressionforms", scenarios.expression_form_scenarios(), bins, PROP)
+    profcheck.run_scenarios(rep, "rangecache", scenarios.range_cache_scenarios(), bins, PROP)
     # operators on operands of every kind (the adversarial pool of Natives.tla): which operand combinations an operator accepts,
     # and the class and text of the error for the others; indexing, index assignment and range construction likewise
     from checks import c02
